@@ -102,6 +102,8 @@ pub enum TRef {
     Issued(usize),
     Never,
     Zero,
+    /// the id after the largest one issued so far: what the loader would hand out next, never given to the caller
+    Next,
 }
 
 #[derive(Clone, Debug, PartialEq, Eq)]
@@ -125,6 +127,7 @@ fn op_json(o: &Op) -> Value {
         TRef::Issued(k) => json!(format!("T{k}")),
         TRef::Never => json!("NEVER"),
         TRef::Zero => json!("ZERO"),
+        TRef::Next => json!("NEXT"),
     };
     match o {
         Op::Initiate(s) => json!(["initiate", s]),
@@ -147,6 +150,7 @@ fn op_from_json(v: &Value) -> Option<Op> {
         Some(match s {
             "NEVER" => TRef::Never,
             "ZERO" => TRef::Zero,
+            "NEXT" => TRef::Next,
             s => TRef::Issued(s.strip_prefix('T')?.parse().ok()?),
         })
     };
@@ -242,6 +246,7 @@ fn run_history_here(ops: &[Op]) -> HistoryResult {
             TRef::Issued(k) => issued.get(*k).copied().unwrap_or(1000 + *k),
             TRef::Never => 424242,
             TRef::Zero => 0,
+            TRef::Next => issued.iter().copied().max().unwrap_or(0) + 1,
         }
     };
     heapmon::reset_violations();
@@ -426,6 +431,8 @@ pub fn alphabet(with_missing: bool) -> Vec<Op> {
         Op::Emit(t0),
         Op::Emit(t1),
         Op::Emit(TRef::Zero),
+        Op::Required(TRef::Next),
+        Op::Load(TRef::Next, "F1"),
         Op::Free(t0),
         Op::Free(t1),
     ];
@@ -443,7 +450,7 @@ fn random_history(rng: &mut Rng, len: usize, with_missing: bool) -> Vec<Op> {
     for _ in 0..len {
         let tref = |rng: &mut Rng, n: usize| -> TRef {
             if n == 0 || rng.chance(1, 8) {
-                if rng.coin() { TRef::Never } else { TRef::Zero }
+                *rng.pick(&[TRef::Never, TRef::Zero, TRef::Next, TRef::Next])
             } else {
                 TRef::Issued(rng.below(n.min(6) + 0).max(0) + n.saturating_sub(6))
             }
